@@ -90,6 +90,13 @@ func runC19(seed int64, tier string, outDir string) *result {
 	for i := 0; i < nh; i++ {
 		hashes = append(hashes, fakeCid(fmt.Sprintf("c19-%d-%d", seed, i)))
 	}
+	// distinct CIDs over ONE digest (a dag-pb block addressed as CIDv0 and as CIDv1, and the same
+	// digest under the dag-cbor codec): they are different hashes and must be ordered
+	{
+		digest := hashes[0].Hash()
+		hashes = append(hashes, cid.NewCidV0(digest), cid.NewCidV1(cid.DagProtobuf, digest))
+		nh = len(hashes)
+	}
 	rk := newRanker()
 	for _, id := range ids {
 		rk.add(string(id))
